@@ -124,6 +124,24 @@ def unit(model, sizes, ranks):
             explore(ctx, run_alias)
             recs += settle(ctx.all_obls, mode="U")
 
+    # ---- deep-copied twins: two copies of one rating (same id, same values) in one game == independently built players
+    if len(set(sizes)) == 1:
+        import copy as _copy
+        ctx = Ctx("U")
+
+        def run_twins(ctx):
+            m, _ = game.mk_model(ctx, S)
+            base = game.mk_teams(ctx, S, sizes)
+            tA = [base[0]] + [[_copy.deepcopy(p) for p in base[0]] for _ in sizes[1:]]
+            b2 = game.mk_teams(ctx, S, sizes)
+            tB = [b2[0]] + [[S.rating_cls(p.mu, p.sigma) for p in b2[0]] for _ in sizes[1:]]
+            ra, rb = _do(m, "rate", tA, ranks), _do(m, "rate", tB, ranks)
+            ctx.oblige(f"C14/{model}/rate/deep-copied-twins-rated-like-independent-players@{shape}", game.compare_outcomes(ra, rb),
+                       meta={"fn": f"{model}.rate", "shape": shape,
+                             "replay": lambda md: {"kind": "c14_twins", "model": model, "ranks": ranks, "game": game.enc_game(md, sizes), "params": game.enc_params(md)}})
+        explore(ctx, run_twins)
+        recs += settle(ctx.all_obls, mode="U")
+
     # ---- history independence: any first call, then op == fresh model's op
     firsts = [("rate", None, True), ("rate", True, False), ("rate", False, False), ("predict_win", None, False)]
     for op in OPS:
